@@ -148,7 +148,7 @@ def model_check(module, constants, invariants, work, workers=12, timeout=3600, s
            "transitions": st["generated"], "depth": st["depth"], "ok": ok, "secs": round(secs, 1), "out": outp}
     if not ok:
         res["error"] = tlc_error_detail(outp) or ("TLC exit code %d" % rc)
-        if st["distinct"] == 0 and "violated" not in res["error"] and "Assert" not in res["error"] and "evaluated to FALSE" not in res["error"]:
+        if not any(x in res["error"] for x in ("violated", "Assert", "evaluated to FALSE", "is equal to FALSE")):
             raise ToolError("TLC failed on %s %s:\n%s" % (module, constants, res["error"] or open(outp).read()[-3000:]))
     log("[E1] %s %s: %d distinct states, %d transitions, depth %d, %s (%.1fs)" % (
         module, json.dumps(constants), res["states"], res["transitions"], res["depth"], "ok" if ok else "SPEC-LEVEL COUNTEREXAMPLE", secs))
